@@ -29,8 +29,9 @@ def plan(tier, seed):
         return [
             dict(seeds=all_leaves, operands=all_leaves + list(arrs.values()), small=small, acts=API, lvl=1, dim=16,
                  scalars=sc),
-            dict(seeds=seeds2, operands=ops, small=small, acts=API, lvl=2, dim=6, scalars=sc[:6], stride=1),
-            dict(seeds=all_leaves, operands=ops, small=small, acts=API, lvl=4, dim=9, scalars=sc, simulate=20),
+            dict(seeds=seeds2[:7], operands=ops[:5] + [arrs["A22"]], small=small, acts=API, lvl=2, dim=6, scalars=sc[:5],
+                 stride=1),
+            dict(seeds=all_leaves, operands=ops, small=small, acts=API, lvl=4, dim=9, scalars=sc, simulate=10),
         ]
     ops = [L[n] for n in ["D22", "D23", "D32c", "Dg2c", "I2", "Sc2", "Dg2", "I3", "Sc3", "P3", "S33", "R0", "R1"]] \
         + list(arrs.values())
